@@ -371,7 +371,9 @@ def run_batch(prop: str, modname: str, fnname: str, *, tier: str, budget_s: floa
 
 def write_evidence(prop: str, tier: str, level: str, coverage: dict, *, wall_s: float,
                    violations: int, assumptions: list[str]):
-    d = os.path.join(VERIF, 'evidence')
+    # (the mutant-trial and soak tools point this elsewhere, so that evidence/ only ever describes
+    # runs against the repository as it is)
+    d = os.environ.get('VERIF_EVIDENCE_DIR') or os.path.join(VERIF, 'evidence')
     os.makedirs(d, exist_ok=True)
     ev = {
         'property_id': prop,
